@@ -18,7 +18,8 @@ from common import hexb
 RULE = ("cases = (a) plans given to the real FirewallClient (0-40 subnets per family incl. the longest IPv6 "
         "texts, all widths, port ranges, 0-5 name servers, ports {0,1,65535,...}, user/group {None, 0, "
         "4294967294, ...}, tmark, occasionally a non-ASCII text) whose written bytes go through the real helper; "
-        "(b) HOST updates over the allowed alphabet with lengths {1,63,100,106,107,120,121,122,253}; (c) every "
+        "(b) HOST updates over the allowed alphabet with lengths {1,63,100,106,107,120,121,122,253}, and update "
+        "histories per name on one client object (A,B,A; A,A; A,B,B,A; names interleaved); (c) every "
         "truncation point of rendered dialogues (after each line and inside lines); (d) malformed dialogues "
         "(field deleted/duplicated, signs, underscores, white space of every kind, non-ASCII bytes, over-long "
         "lines, wrong keywords, unknown commands). Non-trivial = the helper got past the first line; distinct = "
@@ -53,10 +54,12 @@ AF_INET, AF_INET6 = 2, 10
 # ------------------------------------------------------------------ real writer
 
 class RecFile:
-    """pfile of the FirewallClient: records writes, answers STARTED."""
+    """pfile of the FirewallClient (what `s2.makefile('rwb')` returns): records writes, answers
+    READY to __init__ and STARTED to start()."""
 
     def __init__(self):
         self.written = b''
+        self.answers = [b'READY nat\n']
 
     def write(self, b):
         self.written += bytes(b)
@@ -66,49 +69,96 @@ class RecFile:
         pass
 
     def readline(self):
-        return b'STARTED\n'
+        return self.answers.pop(0) if self.answers else b'STARTED\n'
+
+    def close(self):
+        pass
 
 
 class FakeProc:
+    pid = 4244
+
     def poll(self):
         return None
 
+    def wait(self):
+        return 0
+
+
+class _Proxy:
+    """A module with a few names replaced (the OS boundary of FirewallClient.__init__)."""
+
+    def __init__(self, real, **over):
+        self.__dict__['_real'] = real
+        self.__dict__.update(over)
+
+    def __getattr__(self, n):
+        return getattr(self._real, n)
+
 
 def make_fw():
+    """A FirewallClient built by its real __init__; only Popen, socketpair and the privilege test are
+    replaced, so every attribute the class sets up for itself exists."""
     import sshuttle.client as client
-    fw = client.FirewallClient.__new__(client.FirewallClient)
-    fw.auto_nets = []
-    fw.pfile = RecFile()
-    fw.p = FakeProc()
-    fw.argv = ['fw']
+    pfile = RecFile()
+
+    class S:
+        def close(self):
+            pass
+
+        def makefile(self, mode):
+            return pfile
+
+    saved = (client.ssubprocess, client.socket, client.is_admin_user, sys.stderr)
+    client.ssubprocess = _Proxy(saved[0], Popen=lambda *a, **k: FakeProc())
+    client.socket = _Proxy(saved[1], socketpair=lambda: (S(), S()))
+    client.is_admin_user = lambda: True
+    sys.stderr = io.StringIO()
+    try:
+        fw = client.FirewallClient('nat', False)
+    finally:
+        (client.ssubprocess, client.socket, client.is_admin_user, sys.stderr) = saved
+    assert fw.pfile is pfile
     return fw
 
 
+class Session:
+    """One real FirewallClient used the way client.main/_main use it: setup() while `auto_nets` is still
+    empty, the server's route message appending to the list the object holds, start(), then any number
+    of sethostip() calls on the same object."""
+
+    def __init__(self):
+        self.fw = make_fw()
+
+    def start(self, plan):
+        fw = self.fw
+        fw.setup(list(plan['inc']), list(plan['exc']), list(plan['ns']), plan['p6'], plan['p4'], plan['d6'],
+                 plan['d4'], plan['udp'], plan['user'], plan['group'], plan['tmark'])
+        for net in plan['auto']:
+            fw.auto_nets.append(tuple(net))      # what onroutes does for every accepted route
+        w0 = len(fw.pfile.written)
+        try:
+            fw.start()
+        except UnicodeEncodeError:
+            return 'unicodeEncodeError', b''
+        return 'ok', fw.pfile.written[w0:]
+
+    def sethostip(self, name, ip):
+        fw = self.fw
+        w0 = len(fw.pfile.written)
+        try:
+            fw.sethostip(name, ip)
+        except AssertionError:
+            return 'assert', b''
+        return 'ok', fw.pfile.written[w0:]
+
+
 def run_start(plan):
-    """Real FirewallClient.setup + start in the real order of events of client.main/_main:
-    `auto_nets` is empty when setup() runs (FirewallClient.__init__), the server's route message then
-    appends to the list the client object holds (`fw.auto_nets.append(...)` in onroutes), and only then
-    start() runs.  Returns ('ok', bytes) or ('unicodeEncodeError', b'')."""
-    fw = make_fw()
-    assert fw.auto_nets == []
-    fw.setup(list(plan['inc']), list(plan['exc']), list(plan['ns']), plan['p6'], plan['p4'], plan['d6'],
-             plan['d4'], plan['udp'], plan['user'], plan['group'], plan['tmark'])
-    for net in plan['auto']:
-        fw.auto_nets.append(tuple(net))      # what onroutes does for every accepted route
-    try:
-        fw.start()
-    except UnicodeEncodeError:
-        return 'unicodeEncodeError', b''
-    return 'ok', fw.pfile.written
+    return Session().start(plan)
 
 
 def run_sethostip(name, ip):
-    fw = make_fw()
-    try:
-        fw.sethostip(name, ip)
-    except AssertionError:
-        return 'assert', b''
-    return 'ok', fw.pfile.written
+    return Session().sethostip(name, ip)
 
 
 # ------------------------------------------------------------------ real reader
@@ -369,45 +419,58 @@ def helper_case(kind, stream):
 
 
 def check_plan(ctx, plan, hosts, logs, cuts):
-    """Writer on the plan, helper on the written bytes (+ HOST lines), oracle, truncations."""
-    kind, data = run_start(plan)
+    """Writer on the plan, the same client object on a HISTORY of host updates, helper on the written
+    bytes, oracle, truncations.  An exception out of the real client code is a violation, not a crash."""
+    case = dict(stream='plan', plan=plan, hosts=[(hexb(n), hexb(i)) for n, i in hosts])
     pid = os.getpid()
+    try:
+        ses = Session()
+        kind, data = ses.start(plan)
+    except Exception as e:  # noqa
+        ctx.violation('C13:client:exception:' + type(e).__name__, case=case,
+                      expected='FirewallClient() / setup() / start() complete', observed=repr(e)[:300])
+        return
     logs.append(Case('start', [plan_line(plan, pid)], ['ok ' + hexb(data) if kind == 'ok' else kind]))
     ctx.hist('start:' + kind)
     if kind != 'ok':
         return
     stream = data
-    sent = {}
-    n_ok = 0
+    sent = {}          # the property: last value announced per name
     for name, ip in hosts:
-        k, line = run_sethostip(name, ip)
+        try:
+            k, line = ses.sethostip(name, ip)
+        except Exception as e:  # noqa
+            ctx.violation('C13:client:exception:' + type(e).__name__, case=case,
+                          expected='sethostip() writes the update', observed=repr(e)[:300])
+            return
         logs.append(Case('sethostip', ['host %s %s' % (hexb(name), hexb(ip))],
                          ['ok ' + hexb(line) if k == 'ok' else 'assert']))
         ctx.hist('sethostip:' + k)
         if k == 'ok':
             stream += line
-            n_ok += 1
             sent[name.decode()] = ip.decode()
+    if len(hosts) > len(set(n for n, _i in hosts)):
+        ctx.hist('history:repeated-name')
     c, r = helper_case('dialogue', stream)
     logs.append(c)
     indom = plan_in_domain(plan)
     ctx.hist('plan-in-domain' if indom else 'plan-outside-domain')
     if indom:
         exp = expected_calls(plan)
-        case = dict(stream='plan', plan=plan, hosts=[(hexb(n), hexb(i)) for n, i in hosts])
         if not r.started or norm_calls(r.calls) != norm_calls(exp) or r.pid != pid:
             ctx.violation('C13:plan:helper-reconstructs-different-plan', case=case,
                           expected=dict(calls=[show_call(x) for x in exp], pid=pid),
                           observed=dict(started=r.started, error=r.error, calls=[show_call(x) for x in r.calls], pid=r.pid))
         elif hosts:
             final = dict(r.maps[-1][0]) if r.maps else {}
-            if final != sent or r.error is not None or len(r.maps) != n_ok:
+            if final != sent or r.error is not None:
                 longest = max(len(n) + len(i) for n, i in hosts)
                 key = 'C13:host:long-line-split-by-readline' if longest > 121 else 'C13:host:update-lost-or-altered'
                 ctx.violation(key, case=case,
                               expected=dict(hostmap=sent, end='eof'),
                               observed=dict(hostmap=final, end=r.error, updates=len(r.maps)),
-                              note='HOST updates written by sethostip must all reach the helper host map unchanged')
+                              note="after a history of updates the helper's host map must hold the last value "
+                                   "announced for every name")
         # truncation
         exp_n = norm_calls(exp)
         for k in cuts(data):
@@ -497,6 +560,17 @@ def gen_cases(ctx):
         for ip in [b'1.2.3.4', b'255.255.255.255']:
             check_plan(ctx, base, [(b'a.example', b'10.0.0.1'), (rand_name(rng, n), ip), (b'a.example', b'10.0.0.2')],
                        logs, lambda d: [])
+    # update histories per name on one client object (last announced value must win)
+    A, B, C = b'10.0.0.1', b'10.0.0.2', b'10.0.0.3'
+    for hist in [[(b'h', A), (b'h', B), (b'h', A)], [(b'h', A), (b'h', A)], [(b'h', A), (b'h', B), (b'h', B), (b'h', A)],
+                 [(b'h', A), (b'g', A), (b'h', B), (b'g', C), (b'h', A), (b'g', A)],
+                 [(b'h', A), (b'h', B), (b'h', C), (b'h', B), (b'h', A), (b'h', A), (b'h', C)]]:
+        check_plan(ctx, base, hist, logs, lambda d: [])
+    for _ in range(ctx.scale(40, 600)):
+        names = [rand_name(rng, rng.choice([1, 5, 20])) for _ in range(rng.choice([1, 2, 3]))]
+        ips = [A, B, C, rand_hostip(rng)]
+        hist = [(rng.choice(names), rng.choice(ips)) for _ in range(rng.choice([2, 3, 4, 6, 9]))]
+        check_plan(ctx, base, hist, logs, lambda d: [])
     # random plans
     for i in range(ctx.scale(120, 1500)):
         plan = rand_plan(rng, big=(i % 30 == 7), odd=(i % 5 == 3))
@@ -515,7 +589,10 @@ def gen_cases(ctx):
     # malformed dialogues
     for _ in range(ctx.scale(700, 12000)):
         plan = rand_plan(rng)
-        k, data = run_start(plan)
+        try:
+            k, data = run_start(plan)
+        except Exception:  # noqa  (reported with a replay by check_plan on the same kind of plan)
+            continue
         data += rng.choice([b'', b'HOST a,1.2.3.4\n', b'HOST a,1.2.3.4\nHOST b,5.6.7.8\nHOST a,9.9.9.9\n'])
         for _ in range(rng.choice([1, 1, 2])):
             data = mutate(rng, data)
